@@ -6,6 +6,6 @@ CONTRACTS = list(_C) + [CellCopyStub, EMCopy, CopiesKeepFilesValid, MaskedCopyNa
 
 MANIFEST = {
     "category": "proof",
-    "text": "Workspace.copy_property_groups is verified for any member list: the copied group lists the copies of the source members in the source order, keeps name/type/association, and keeps its identifier exactly when a live lookup finds it free in the target. ObjectBase.copy is verified (abstract execution of every path) to copy under the requested parent, copy children under the new object, copy property groups onto the new object and to write only the copy, only through the copy's workspace. Attribute-by-attribute equality, alias freedom (later edits of the copy do not show in the source), and unchanged source snapshot / per-node source-file digest for Points, Curve and Grid2D copied to the same parent, another group and another workspace are a bounded stand-in. BaseEMSurvey.copy is verified to forward every shared survey parameter (0.0 and False included) and none of the original partner identifiers; Data.copy with a mask never modifies or shares the source's array; drillhole-group copies (same workspace, other workspace, creating session; slash-named data; interval tables) are compared hole by hole natively.",
+    "text": "Workspace.copy_property_groups is verified for any member list: the copied group lists the copies of the source members in the source order, keeps name/type/association, and keeps its identifier exactly when a live lookup finds it free in the target. ObjectBase.copy is verified (abstract execution of every path) to copy under the requested parent, copy children under the new object, copy property groups onto the new object and to write only the copy, only through the copy's workspace. Attribute-by-attribute equality, alias freedom (later edits of the copy do not show in the source), and unchanged source snapshot / per-node source-file digest for Points, Curve and Grid2D copied to the same parent, another group and another workspace are a bounded stand-in. BaseEMSurvey.copy is verified to forward every shared survey parameter (0.0 and False included) and none of the original partner identifiers; Data.copy with a mask never modifies or shares the source's array; drillhole-group copies (same workspace, other workspace, creating session; slash-named data; interval tables) are compared hole by hole natively. Round-5 additions: in-place edits of the copy's arrays must not show in the source; the same copies after surveys / drillholes were copied in the process (omit lists do not leak); the 12-kind copies stand-in (source nodes unchanged, both files valid); masked copies with cell/object data created before vertex data.",
     "note": "Constructor keyword routing (vars/setattr) is outside the model, hence the bounded part; GridObject.copy, CellObject.copy, Group.copy recursion, Data.copy masks and Concatenator.copy are not under contract.",
 }
